@@ -47,6 +47,10 @@ def gen_ts(rng):
 
 
 def gen_msg(rng):
+    if rng.random() < 0.012:
+        # a message as long as the daemon's 16 KiB chunk (the frame is 31 bytes longer: the timestamp), and longer ones
+        n = rng.choice([16353, 16354, 16384, 16385, 20000])
+        return bytes(97 + (i * 7 + n) % 26 for i in range(n))
     n = rng.choice([0, 0, 1, 2, 3, 5, 8, 13, 40])
     if rng.random() < 0.2:
         return bytes(rng.randrange(256) for _ in range(n))
